@@ -137,7 +137,7 @@ void harness(void)
 	g_node.name[3] = '\0';
 	pr_register(g_node.n.name, 3);
 
-	VERIF_COVER(ITYPE != SQFS_INODE_FILE || g_ig.nblk > 100000);
+	VERIF_COVER(ITYPE != SQFS_INODE_FILE || g_ig.nblk == W13_MAXBLK || g_ig.nblk > 100000);
 	VERIF_COVER(ITYPE != SQFS_INODE_EXT_SLINK || g_ig.tlen > 0x80000000UL);
 
 	ret = stat_file(&g_node.n);
